@@ -10,6 +10,10 @@ n = caught = 0
 for d in sorted(glob.glob(os.path.join(HERE, 'seeded', '*', 'meta.json'))):
     m = json.load(open(d))
     name = os.path.basename(os.path.dirname(d))
+    if m.get('equivalent'):
+        rows.append('| %s | %s | %s | judged *not* a violation: %s (kept as benign/%s.patch, which must stay quiet) |'
+                    % (m['property'], name, m['needs'], m['equivalent'], m.get('benign_name', name)))
+        continue
     r = st.get('seeded/' + name + '@quick', {})
     n += 1
     caught += bool(r.get('caught'))
